@@ -1,8 +1,15 @@
-(* Extraction of the type-equality / printing area (C08, C15).  Same directives as Extract_front.v. *)
+(* Extraction of the type-equality / printing area (C08, C15).  Same directives as Extract_front.v.
+   The m_* aliases give the driver stable names (TcDeps and Print/Equal both define print_type,
+   eq_ty, ...; the extraction would otherwise rename one of each pair). *)
 Require Import Coq.extraction.Extraction Coq.extraction.ExtrOcamlBasic Coq.extraction.ExtrOcamlString.
-Require Import Grits.Base Grits.ModeDefs Grits.Modes Grits.STypes Grits.Forms Grits.Expand Grits.Dump
-               Grits.Print Grits.Equal Grits.EqualWF.
+Require Import Grits.Base Grits.ModeDefs Grits.Modes Grits.STypes Grits.Forms Grits.Expand Grits.Dump.
+Require Grits.Print Grits.TcDeps Grits.Equal Grits.EqualWF.
+Definition m_print_type := Print.print_type.
+Definition m_print_with_modality := Print.print_with_modality.
+Definition m_print_outer := Print.print_outer.
+Definition m_print_form := Print.print_form.
+Definition m_equal_type := TcDeps.equal_type.   (* the function the typechecker model calls; = Equal.equal_type (proofs/EqualBridge.v) *)
+Definition m_wf_env := EqualWF.wf_env.
 Extraction Language OCaml.
 Extraction "model_eq.ml" parse_string dump_type dump_form mode_short mode_of
-           print_type print_with_modality print_outer print_form
-           eq_ty equal_type equal_type_in fuel_of universe eq_fuel wf_env wf_ty.
+           m_print_type m_print_with_modality m_print_outer m_print_form m_equal_type m_wf_env.
